@@ -36,6 +36,7 @@ class Req(pg.Object):
     ('u', pg.typing.Union([pg.typing.Int(), pg.typing.Str()], default=0), 'union'),
     ('t', pg.typing.Tuple([pg.typing.Int(), pg.typing.Str()]).noneable(), 'tuple'),
     ('fz', pg.typing.Int(default=7).freeze(), 'frozen'),
+    ('fzn', pg.typing.Str().noneable().freeze('fixed'), 'frozen and noneable'),
     ('kids', pg.typing.List(pg.typing.Object(Leaf), default=[]), 'object list'),
     ('req', pg.typing.Int(), 'required'),
     ('pd', pg.typing.Dict([
